@@ -237,10 +237,18 @@ class C14(Prop):
         try:
             ran, hooks = [], []
 
+            gate = loop.create_future()
+
             class Srv(RPCSession):
                 cost_decay_per_sec = 0
+                initial_concurrent = 1 if case.get('queued') else RPCSession.initial_concurrent
 
                 async def handle_request(self, request):
+                    if case.get('queued') and request.method == 'slow':
+                        # holds the only slot; fails at a cost of its own that takes the session over the hard limit
+                        await gate
+                        from aiorpcx import RPCError
+                        raise RPCError(1, 'expensive failure', cost=self.cost_hard_limit + case['over'])
                     ran.append(request.method)
                     return 1
 
@@ -249,9 +257,14 @@ class C14(Prop):
 
             async def main():
                 proto, ft, s = sessions.attach(Srv, 'server', case['transport'])
-                s.bump_cost(s.cost_hard_limit + case['over'])
-                s.recalc_concurrency()
                 item = lambda i, rid: dict({'jsonrpc': '2.0', 'method': 'm%d' % i, 'params': []}, **({'id': rid} if rid is not None else {}))
+                if case.get('queued'):
+                    # one request in its handler, the request of interest queued at the limiter behind it
+                    proto.data_received(json.dumps({'jsonrpc': '2.0', 'method': 'slow', 'params': [], 'id': 1}).encode() + b'\n')
+                    await sessions.settle(8)
+                else:
+                    s.bump_cost(s.cost_hard_limit + case['over'])
+                    s.recalc_concurrency()
                 if case['shape'] == 'request':
                     payload = item(0, 7)
                 elif case['shape'] == 'notification':
@@ -262,6 +275,9 @@ class C14(Prop):
                     payload = [item(0, None), item(1, 8)]
                 proto.data_received(json.dumps(payload).encode() + b'\n')
                 await sessions.settle(12)
+                if case.get('queued'):
+                    gate.set_result(None)
+                    await sessions.settle(12)
                 await asyncio.sleep(31)          # beyond any force_after
                 msgs = sessions.sent_messages(ft)
                 flat = [m for x in msgs for m in (x if isinstance(x, list) else [x])]
@@ -301,6 +317,15 @@ class C14(Prop):
                     cl = self.refusal_oracle(rcase, robs)
                     if cl:
                         out.append(Failure(rcase, robs, cl))
+                # the cost crosses the hard limit while the request is already queued at the limiter
+                for over in (0, 10000):
+                    rcase = {'refusal': True, 'shape': shape, 'transport': transport, 'over': over, 'queued': True}
+                    robs = self.refusal_scenario(rcase)
+                    nref += 1
+                    ctx['extra_evals'] += 1
+                    cl = self.refusal_oracle(rcase, robs)
+                    if cl:
+                        out.append(Failure(rcase, robs, cl + ' (the request was queued at the limiter when the cost crossed the limit)'))
         ctx['notes'].append(f'refusal at the hard limit on a real RPCSession: {nref} scenarios (request, notification, batches; both transports)')
         sizes = [0, 1, 100, 5000, 100000] + [rng.randrange(0, 200000) for _ in range(10)]
         for n in sizes:
